@@ -358,10 +358,20 @@ func (ex *Exec) copyVal(v Value) Value {
 }
 
 func (ex *Exec) storeInto(c *Cell, v Value) {
-	if c.RO != "" {
+	if c.RO != "" && ex.roMatters(c.RO, c.V, v) {
 		ex.roStore(c.RO)
 	}
 	ex.storeRaw(c, v)
+}
+
+// roMatters: memory frozen under a "shared-..." label must not be written at all (an unsynchronised write is a
+// data race whatever it writes); under any other label only a store that changes the value is a modification.
+func (ex *Exec) roMatters(label string, old, nv Value) bool {
+	if strings.HasPrefix(label, "shared") {
+		return true
+	}
+	same := ex.sameState(old, nv, map[[2]interface{}]bool{}, 0)
+	return !(same.IsConst() && same.Bool())
 }
 
 func (ex *Exec) storeRaw(c *Cell, v Value) {
